@@ -223,6 +223,31 @@ func runC09(c *Ctx) {
 		}
 	}
 	c.Floor("R4.maintenance", nDel, 1, "cache deletions")
+	// a removal request always reaches the underlying agent: whatever the shim holds or hides for the key, Remove
+	// succeeds only after the underlying agent's Remove ran (a hidden certificate lives there)
+	if rm := m.Methods["Remove"]; rm != nil {
+		var under []*ssa.Call
+		for _, cv := range w.invokeOfDeep(rm, "Remove") {
+			if m.isLoadOfField(cv.Call.Value, m.fAgent) {
+				under = append(under, cv)
+			}
+		}
+		nRet := 0
+		for _, r := range w.MayBeNilReturns(rm) {
+			if rm.Recover != nil && r.Block() == rm.Recover {
+				continue
+			}
+			nRet++
+			ok := false
+			for _, u := range under {
+				if w.DeepDominates(rm, u, r) {
+					ok = true
+				}
+			}
+			c.Check(ok, "R4.maintenance", "Remove|success only after the underlying agent's Remove", w.Pos(r.Pos()), "the underlying call is unavoidable on the way to this return", "Remove can report success without forwarding the removal to the underlying agent: a certificate the shim hides (or also holds in memory) stays there")
+		}
+		c.Floor("R4.maintenance", nRet, 1, "successful returns of Remove")
+	}
 	if ra := m.Methods["RemoveAll"]; ra != nil {
 		ok := false
 		callees := map[*ssa.Function]bool{ra: true}
